@@ -17,7 +17,7 @@ func init() {
 			"persistFooter(_, V, _) with the same value V and lies behind the nil-error edge of that call. Store literals (openStore) take their footer " +
 			"from ReadFooter behind its nil-error edge or from a Footer literal without SegmentLocs.",
 		Props: []string{"C04", "C05", "C06", "C07", "C12"},
-		Floor: 4,
+		Floor: 3,
 		Run:   ruleDur1,
 	})
 	register(&Rule{
@@ -26,7 +26,7 @@ func init() {
 			"its nil-error edge; on every path from that call's nil-error edge to a return a File.Sync on the same file occurs; both only skippable along the " +
 			"options.NoSync == true edge. persistFooterUnsynced has exactly one caller (persistFooter). snapshotRevert passes zero-valued options (sync on).",
 		Props: []string{"C04", "C05", "C12"},
-		Floor: 4,
+		Floor: 2,
 		Run:   ruleDur2,
 	})
 	register(&Rule{
@@ -34,7 +34,7 @@ func init() {
 		Doc: "Data before footer: in persist the call persistSegments, and in compact the call writeSegments, precedes persistFooter on every path and persistFooter lies behind " +
 			"its nil-error edge; in writeSegments every return of a non-nil footer is preceded by, and behind the nil-error edges of, mergeInto and Flush and Stop of both section writers.",
 		Props: []string{"C04", "C05", "C07"},
-		Floor: 4,
+		Floor: 3,
 		Run:   ruleDur3,
 	})
 	register(&Rule{
@@ -44,9 +44,91 @@ func init() {
 			"partialCompactStart == 0; (iii) startFileLOCKED removing the file it just created, on the failure edge of persistHeader; (iv) the after-close callback installed by " +
 			"removeFileOnClose; (v) removeFiles, called only by openStore behind ReadFooter's nil-error edge. Any other unlink site is a violation.",
 		Props: []string{"C02", "C05", "C06", "C07", "C15"},
-		Floor: 4,
+		Floor: 3,
 		Run:   ruleDur4,
 	})
+}
+
+func init() {
+	register(&Rule{
+		ID: "DEL-1",
+		Doc: "Tombstone retention mode: deletion markers may be dropped only when nothing older is retained underneath, which only compact knows (splice point). So compact passes " +
+			"`partialCompactStart != 0` as writeSegments' includeDeletes; writeSegments hands its own includeDeletes parameter, unchanged, to mergeInto and to its recursive calls for child " +
+			"collections; the in-memory merger (segmentStack.merge) always passes true.",
+		Props: []string{"C07", "C11"},
+		Floor: 2,
+		Run:   ruleDel1,
+	})
+}
+
+func ruleDel1(c *Ctx) []*Ob {
+	o := newObs(c, "DEL-1")
+	compact := c.Fn("(*Store).compact")
+	ws := c.Fn("(*Store).writeSegments")
+	mi := c.Fn("(*segmentStack).mergeInto")
+	merge := c.Fn("(*segmentStack).merge")
+	pIdx := func(f *ssa.Function, name string) int {
+		for k, p := range f.Params {
+			if p.Name() == name {
+				return k
+			}
+		}
+		return -1
+	}
+	wsIdx := pIdx(ws, "includeDeletes")
+	miIdx := pIdx(mi, "includeDeletions")
+	if miIdx < 0 {
+		o.add(c.fname(mi), "parameter includeDeletions", c.pos(mi.Pos()), false, "anchor lost")
+		return o.list
+	}
+	if wsIdx < 0 {
+		o.add(c.fname(ws), "parameter includeDeletes", c.pos(ws.Pos()), false,
+			"writeSegments no longer receives the tombstone mode from compact: it cannot know whether older segments are retained under the ones it rewrites (child collections are always called with a nil base)")
+	} else {
+		for _, k := range callsToFn(compact, ws) {
+			arg := k.Call.Args[wsIdx]
+			ok := false
+			if b, isB := arg.(*ssa.BinOp); isB && b.Op == token.NEQ {
+				if n, isInt := constInt(b.Y); isInt && n == 0 {
+					if p := paramNamed(compact, "partialCompactStart"); p != nil && sameValue(b.X, p) {
+						ok = true
+					}
+				}
+			}
+			why := "tombstones are kept exactly for partial compactions (partialCompactStart != 0)"
+			if !ok {
+				why = "the tombstone mode handed to writeSegments is " + accessPath(arg) + ", not `partialCompactStart != 0`: a partial compaction may drop deletion markers that still shadow retained segments (deleted keys come back)"
+			}
+			o.add(c.fname(compact), "writeSegments(includeDeletes)", c.instrPos(k), ok, why)
+		}
+		for _, k := range callsToFn(ws, ws) {
+			ok := k.Call.Args[wsIdx] == ssa.Value(ws.Params[wsIdx])
+			why := "the recursive call for a child collection passes the same mode"
+			if !ok {
+				why = "the recursive call for a child collection passes " + accessPath(k.Call.Args[wsIdx]) + " instead of its own includeDeletes: children are compacted in a different tombstone mode than their parent"
+			}
+			o.add(c.fname(ws), "recursive writeSegments(includeDeletes)", c.instrPos(k), ok, why)
+		}
+	}
+	for _, k := range callsToFn(ws, mi) {
+		arg := k.Call.Args[miIdx]
+		ok := wsIdx >= 0 && arg == ssa.Value(ws.Params[wsIdx])
+		why := "mergeInto receives writeSegments' own includeDeletes parameter"
+		if !ok {
+			why = "mergeInto's includeDeletions is " + accessPath(arg) + " instead of the mode decided by compact: for child collections (whose base is always nil) tombstones are dropped although older child segments are retained by spliceFooter"
+		}
+		o.add(c.fname(ws), "mergeInto(includeDeletions)", c.instrPos(k), ok, why)
+	}
+	for _, k := range callsToFn(merge, mi) {
+		v, isC := constBool(k.Call.Args[miIdx])
+		ok := isC && v
+		why := "the in-memory merger always keeps tombstones (older sections and the lower level lie below)"
+		if !ok {
+			why = "the in-memory merger may drop tombstones: keys deleted in memory reappear from the lower level"
+		}
+		o.add(c.fname(merge), "mergeInto(includeDeletions=true)", c.instrPos(k), ok, why)
+	}
+	return o.list
 }
 
 // callsToFn: *ssa.Call instructions in f whose static callee is target.
